@@ -451,6 +451,13 @@ pub const EXTREMES: &[&str] = &[
   "decimal(1000000000000000000000000000000.5, 10)",
   "exp(99999)",
   "-exp(99999)",
+  // the largest values of the machine integer types as numbers (positions, lengths, counts)
+  "18446744073709551615",
+  "9223372036854775807",
+  "4294967295",
+  "2147483647",
+  // a list long enough for the library's merge sort, with items that are not ordered with the others
+  "for i in 1..45 return if modulo(i, 3) = 0 then decimal(1000000000000000000000000000000.5, 10) else 50 - i",
 ];
 
 fn build_extremes(results: &mut std::fs::File) -> Vec<Value> {
@@ -491,7 +498,7 @@ fn bif_max_arity(tier: &str) -> u32 {
 }
 
 /// quick: arity 0..2 over all values, arity 3 over a 9-value core; thorough: arity 0..3 over all values, arity 4 over the core
-const CORE: &[usize] = &[0, 2, 4, 6, 9, 13, 15, 18, 21, 30, 34, 24, 37, 52, 53];
+const CORE: &[usize] = &[0, 2, 4, 6, 9, 13, 15, 18, 21, 30, 34, 24, 37, 52, 53, 55, 56];
 
 /// quick only: arity 4 over a 7-value core (a number, null, a string, a small duration, a date-time in a daylight-saving gap,
 /// a time in a named zone, a date), so that 4-argument forms such as time(h, m, s, offset) are reached on every change
@@ -764,6 +771,15 @@ pub fn iteration_cases() -> Vec<String> {
     "for i in [] return partial[0]",
     "for i in [1, 2, 3] return sum(partial) + i",
     "for i in [[1]], j in i return j",
+    // sort with a precedes function that is no strict order, on lists longer than the library's small-slice threshold
+    "sort(for i in 1..60 return i, function(x, y) true)",
+    "sort(for i in 1..60 return 60 - i, function(x, y) false)",
+    "sort(for i in 1..60 return modulo(i * 7, 60), function(x, y) x != y)",
+    "sort(for i in 1..60 return modulo(i * 7, 60), function(x, y) modulo(x + y, 3) = 0)",
+    "sort(for i in 1..60 return modulo(i * 7, 60), function(x, y) null)",
+    "sort(for i in 1..60 return if modulo(i, 3) = 0 then null else i, function(x, y) x < y)",
+    // a chain of entries each made of the one before: what an error value carries along must not grow without bound
+    "{a00: 1 / \"x\", a01: a00 / a00, a02: a01 / a01, a03: a02 / a02, a04: a03 / a03, a05: a04 / a04, a06: a05 / a05, a07: a06 / a06, a08: a07 / a07, a09: a08 / a08, a10: a09 / a09, a11: a10 / a10, a12: a11 / a11, a13: a12 / a12, a14: a13 / a13, a15: a14 / a14, a16: a15 / a15, a17: a16 / a16, a18: a17 / a17, a19: a18 / a18, a20: a19 / a19, a21: a20 / a20, a22: a21 / a21, a23: a22 / a22, a24: a23 / a23, a25: a24 / a24, a26: a25 / a25, a27: a26 / a26, a28: a27 / a27, a29: a28 / a28}.a29",
     // recursion of a user-defined function: bounded depths, and without a base case
     "{f: function(n) if n <= 0 then 0 else 1 + f(n - 1), r: f(10)}.r",
     "{f: function(n) if n <= 0 then 0 else 1 + f(n - 1), r: f(100)}.r",
